@@ -247,6 +247,12 @@ def gen_worker_script(rs: int, knobs: Optional[dict] = None) -> dict:
     cfg["middlewares"] = mws
     if len(mws) >= 2 and rc.random() < 0.4:
         cfg["mw_split"] = [rc.randint(1, len(mws) - 1), rc.choice(["with+with", "add+with", "with+add", "add+add"])]
+    plain = [i for i, mw in enumerate(mws) if mw.get("retry") is None]
+    if len(plain) >= 2 and rc.random() < 0.3:
+        a, b = sorted(rc.sample(plain, 2))
+        cfg["mw_inherit"] = [b, a]            # the class of middleware b derives from the class of middleware a
+    if mws and rc.random() < 0.15:
+        cfg["mw_bare"] = rc.randint(0, len(mws))
     if rc.random() < 0.5:
         cfg["pool_size"] = rc.choice([1, 3, 8, 16])      # explicit size of the sync-task pool (api: sync_workers, cli: --max-threadpool-threads)
     tasks = gen_tasks(rc, kn)
